@@ -88,6 +88,13 @@ def run(report: Report, tier, seed):
     for b in sdiff[:2]:
         report.violation(Violation(key=f"shared:{b['job'][0]}:{b['job'][1]}", what=f"sharing template {b['job']}: {b['differs']}"[:400], replay={"shared": b["job"]}, confirmed_native=True))
 
+    # the recorded optimiser finding O3.4, shown on a fixed program and attributed exactly (disappears when the multiply-stored slot is withheld)
+    from . import opt_native
+    w34 = opt_native.o34_witness("result")
+    report.bounded.append(Bounded(function="slot optimiser on a slot that is stored twice and loaded once right after a store", contract="the subroutine returns its result",
+                                  bound="one fixed program (the example of known_findings O3.4)", cases=1, distinct_nontrivial=1, failures=1 if w34 else 0))
+    if w34:
+        report.violation(Violation(key="O3.4:store-elsewhere+adjacent-store-load", what=w34["what"][:400], replay=w34, confirmed_native=True))
     def directed(obs):
         """native search aimed at the construct whose fragment obligation failed (same oracle as the sweep)"""
         feats = {"subs": False, "recursion": False}
@@ -133,6 +140,11 @@ def replay(data):
         print(out)
         return 1 if out["differs"] else 0
     nat = r.get("native") or r
+    if (nat.get("input") or {}).get("o34"):
+        from . import opt_native
+        w = opt_native.o34_witness(nat["input"]["o34"])
+        print(w["what"] if w else "not reproduced")
+        return 1 if w else 0
     spec = (nat.get("input") or {}).get("spec")
     if not spec:
         print("no concrete input in replay file; refuted obligations:", [x["id"] for x in r.get("refuted", [])])
